@@ -503,6 +503,28 @@ class SVG:
         # capture elements by id so even if we change it they remain stable
         el_by_id = {el.attrib["id"]: el for el in self.xpath(".//svg:*[@id]")}
 
+        # a <use> that (indirectly) references itself or one of its ancestors
+        # would be instantiated forever
+        href_attr = _xlink_href_attr_name()
+        visiting = set()
+        visited = set()
+
+        def check_acyclic(el):
+            if el in visited:
+                return
+            if el in visiting:
+                raise ValueError("Circular reference in <use> elements")
+            visiting.add(el)
+            for use_el in el.iter(f"{{{svgns()}}}use"):
+                target = el_by_id.get(use_el.attrib.get(href_attr, "")[1:], None)
+                if target is not None:
+                    check_acyclic(target)
+            visiting.discard(el)
+            visited.add(el)
+
+        for use_el in self.xpath(".//svg:use", el=scope_el):
+            check_acyclic(use_el)
+
         while True:
             swaps = []
             use_els = list(self.xpath(".//svg:use", el=scope_el))
